@@ -9,7 +9,7 @@ from .. import common as C
 from . import _sched as S
 
 PROP = "C02"
-GEN_REGIONS: List[str] = ["Sched", "Utils"]
+GEN_REGIONS: List[str] = ["Sched", "Utils", "SchedGlue"]
 THEOREMS = {
     "SpecKitV.Lemmas.Starts": ["roundHalfUp_eq", "capK_le", "capK_ge_one", "nsegRaw_ge_one", "nsegRaw_eq", "startsEven_one", "startsAccum_one",
                                "startsEven_safe", "startsAccum_safe", "startsEven_uncapped_collide"],
@@ -22,10 +22,19 @@ THEOREMS = {
     "SpecKitV.Props.StartsGen": ["gen_ltf_starts_eq_model", "gen_ltf_starts_safe"],
     "SpecKitV.Props.PostGen": ["gen_vec_post_eq_model", "gen_new_post_eq_vec_post", "gen_post_starts_safe"],
     "SpecKitV.Props.Utils": ["gen_round_half_up_eq_model", "gen_round_half_up_eq_floor"],
+    "SpecKitV.Props.SchedGlueGen": ["SchedGlue.gen_require_args_eq", "SchedGlue.gen_ltf_post_eq", "SchedGlue.gen_vec_post_glue_eq", "SchedGlue.gen_new_post_glue_eq", "SchedGlue.gen_ltf_plan_eq_model", "SchedGlue.gen_vec_plan_eq_model", "SchedGlue.gen_new_plan_eq_model", "SchedGlue.gen_lpsd_forward", "SchedGlue.gen_lpsd_plan_eq_ltf", "SchedGlue.gen_lpsd_plan_eq_model", "SchedGlue.gen_plan_missing_key", "SchedGlue.gen_lpsd_missing_key", "SchedGlue.planDict_keys", "SchedGlue.gen_plan_wiring", "SchedGlue.planDict_overlap", "SchedGlue.gen_ltf_plan_props", "SchedGlue.gen_lpsd_plan_props", "SchedGlue.gen_new_plan_props", "SchedGlue.gen_vec_plan_props", "SchedGlue.gen_plan_overlap_key"],
 }
-CONTRACTS = ["np.round is round-half-even; Python round_half_up(v) = floor(v+1/2) (proved of the model)"]
+CONTRACTS = ["np.round is round-half-even; Python round_half_up(v) = floor(v+1/2) (proved of the model)",
+             'Python dict with string keys = association list, most recent binding first (Py.Dict in Np/SchedGlue.lean): d[k]=v (last write wins), d[k], k in d, dict(d) copies, d.update(e), dict(k=v,...)',
+             'np.array(list) = NpSG.ofList: element i is list[i], length len(list); NpSG.toList / NpSG.toList2: the elements of a (nested) array in order (the view under which the output dictionary is stated)',
+             "NumPy basic slicing a[lo:hi] (step 1) = NpSG.slice with Python's normalisation of negative / out-of-range bounds; np.mean = left-to-right sum / length (Arr.mean)",
+]
 ASSUMPTIONS = ["the main walks of ltf_plan and new_ltf_plan are TRANSLATED from schedulers.py each run and proved equal to the model walks (Props/SchedGen); start positions, overlaps and the vectorised scheduler are hand-modelled (Model/Sched.lean) and tied by the plan correspondence; "
-               "float vs real branch choice at exact rounding ties is outside the theorems (counted as unstable-boundary)"]
+               "float vs real branch choice at exact rounding ties is outside the theorems (counted as unstable-boundary)",
+               "region SchedGlue (vk/regions/sched_glue.py): _require_args, lpsd_plan's forwarding, the argument unpacking, the statements after the walk "
+               "(navg bookkeeping, the overlap loop of ltf_plan, array conversions) and the output dictionary of ltf_plan / vectorized_ltf_plan / "
+               "new_ltf_plan are TRANSLATED each run and proved equal, key by key, to the record view of the model plans (Props/SchedGlueGen); "
+               "keyword values are typed as in region Sched (N, Lmin, Jdes, Kdes Python ints; fs, olap, bmin numbers)"]
 RULE = ("admissible configurations drawn branch-directed (tiny/medium/large N, (1-olap)L<1 corner, Lmin=N, bmin near N/2, Jdes=1, olap=0) × 4 schedulers, "
         "directly and through SpectrumAnalyzer.plan(); distinct by (scheduler, configuration); non-trivial = every generated configuration (plans have >= 1 bin)")
 
@@ -39,7 +48,9 @@ WITNESSES = [
 
 def correspondence(ctx) -> C.Part:
     P = C.Part()
-    S.correspondence_plans(ctx, P, ctx.scale(80, 600))
+    cfgs = S.correspondence_plans(ctx, P, ctx.scale(80, 600))
+    # region SchedGlue: the generated schedulers (unpacking, lpsd forwarding, statements after the walk, output dictionary) vs the real ones
+    S.correspondence_glue(ctx, P, cfgs)
     return P
 
 
@@ -55,12 +66,16 @@ def check_cfg(P: C.Part, cfg, scheds=S.SCHEDS, through_analyzer: bool = True) ->
             continue
         P.violations.extend(S.pred_C02(sched, cfg, plan))
         if through_analyzer:
-            try:
-                ap = S.analyzer_plan(sched, cfg)
-                if int(ap["nf"]) != plan["nf"]:
-                    P.violations.append(S.viol(PROP, sched, cfg, "analyzer-plan", f"analyzer plan has {int(ap['nf'])} bins, scheduler {plan['nf']}"))
-            except BaseException as ex:  # noqa
-                P.violations.append(S.viol(PROP, sched, cfg, "analyzer-raises", f"SpectrumAnalyzer.plan() raised {ex!r} for an admissible configuration"))
+            # both documented forms of the `scheduler` option: its name and the scheduler function itself
+            for form, arg in (("name", sched), ("callable", S.sched_fn(sched))):
+                try:
+                    ap = S.analyzer_plan(arg, cfg)
+                    P.hit(f"analyzer:{form}")
+                    if int(ap["nf"]) != plan["nf"]:
+                        P.violations.append(S.viol(PROP, sched, cfg, "analyzer-plan", f"analyzer plan (scheduler given as {form}) has {int(ap['nf'])} bins, scheduler {plan['nf']}"))
+                except BaseException as ex:  # noqa
+                    P.violations.append(S.viol(PROP, sched, cfg, "analyzer-raises",
+                                               f"SpectrumAnalyzer.plan() (scheduler given as {form}) raised {ex!r} for an admissible configuration"))
 
 
 def oracle(ctx, intensive: bool = False, hints=()) -> C.Part:
